@@ -10,7 +10,7 @@ mod term;
 use engine::*;
 
 fn registry() -> Vec<Box<dyn Prop>> {
-    vec![Box::new(props::cong::Cong { sound: true }), Box::new(props::cong::Cong { sound: false }), Box::new(props::inv::Inv), Box::new(props::group::GroupProp), Box::new(props::slotmap::SlotMapProp), Box::new(props::slots::SlotsProp), Box::new(props::shapes::ShapesProp), Box::new(props::parse::ParseProp), Box::new(props::canon::CanonProp), Box::new(props::order::OrderProp), Box::new(props::mono::MonoProp), Box::new(props::equiv::EquivProp), Box::new(props::extract::ExtractProp), Box::new(props::matches::MatchProp), Box::new(props::rewrite::RewriteProp), Box::new(props::analysis::AnalysisProp), Box::new(props::saturate::SaturateProp), Box::new(props::fires::FiresProp), Box::new(props::explain::ExplainProp)]
+    vec![Box::new(props::cong::Cong { sound: true }), Box::new(props::cong::Cong { sound: false }), Box::new(props::inv::Inv), Box::new(props::group::GroupProp), Box::new(props::slotmap::SlotMapProp), Box::new(props::slots::SlotsProp), Box::new(props::shapes::ShapesProp), Box::new(props::parse::ParseProp), Box::new(props::canon::CanonProp), Box::new(props::order::OrderProp), Box::new(props::mono::MonoProp), Box::new(props::equiv::EquivProp), Box::new(props::extract::ExtractProp), Box::new(props::matches::MatchProp), Box::new(props::rewrite::RewriteProp), Box::new(props::analysis::AnalysisProp), Box::new(props::saturate::SaturateProp), Box::new(props::fires::FiresProp), Box::new(props::explain::ExplainProp), Box::new(props::repro::ReproProp)]
 }
 
 fn find_prop(id: &str) -> Box<dyn Prop> {
@@ -39,6 +39,7 @@ fn main() {
             exec1_main(&*prop, &args[3..])
         }
         "replay" => replay_main(&|id| find_prop(id), &args[2]),
+        "c20run" => props::repro::c20run_main(&args[2..]),
         "hist" => {
             // debug helper: mc hist "union (f $0 $1) = (f $1 $0) ; add (u (f $0 $1))"
             use slotted_egraphs::*;
